@@ -181,7 +181,7 @@ def required_nullable(doc):
         if isinstance(s, dict):
             req = set(s.get("required", []) if isinstance(s.get("required"), list) else [])
             for p, ps in (s.get("properties") or {}).items():
-                if p in req and isinstance(ps, dict) and isinstance(ps.get("type"), list) and "null" in ps["type"]:
+                if p in req and isinstance(ps, dict) and ((isinstance(ps.get("type"), list) and "null" in ps["type"]) or ss.admits_null_alt(ps)):
                     return True
             return any(walk(v) for v in s.values())
         if isinstance(s, list):
@@ -286,6 +286,10 @@ def in_known_class(doc, kind, opts):
         return True  # C05-required-nullable-v1/v2: a required member of type [T, null] is not required in the output
     if has_non_integral_int_bound(doc):
         return True  # C04-int-truncation
+    if ss.self_referencing_constrained_member(doc):
+        return True  # C04-self-reference-drops-constraints
+    if ss.overridden_required_member(doc):
+        return True  # C04-required-overridden-member
     if required_of_inherited(doc):
         return True  # C04-required-inherited: required stated in the child for a member declared in the parent is lost
     if opts.get("field_constraints") and '"additionalProperties": {' in text:
